@@ -70,6 +70,17 @@ def _traversal(ctx, se, dparam=1):
                 it = strip(strip(b_[2][0])[2][0])
                 if util.is_call(it, "core::slice::<impl [T]>::iter"):
                     ks = (strip(it[2][0]), b_[2][1])
+            elif util.is_call(b_, "std::iter::Iterator::cycle") and util.is_call(strip(b_[2][0]), "std::iter::Iterator::chain"):
+                # (head, tail) = key.split_at(idx); tail.iter().chain(head).cycle(): item n is
+                # key[(idx + n) mod len] as well
+                ch = strip(b_[2][0])
+                first, second = strip(ch[2][0]), strip(ch[2][1])
+                if util.is_call(first, "core::slice::<impl [T]>::iter"):
+                    first = strip(first[2][0])
+                if util.is_call(second, "core::slice::<impl [T]>::iter"):
+                    second = strip(second[2][0])
+                if first[0] == "field" and second[0] == "field" and first[2] == 1 and second[2] == 0 and first[1] == second[1] and util.is_call(first[1], "core::slice::<impl [T]>::split_at") and len(first[1][2]) == 2:
+                    ks = (strip(first[1][2][0]), first[1][2][1])
             if over_data and ks is not None:
                 elem = lp["elem"]
                 b_ref = ("field", elem, 0)
